@@ -51,6 +51,12 @@ pub struct PipeSt {
     wscript: Vec<usize>,
     wpos: usize,
     pub written: Vec<u8>,
+    /// a byte stream that buffers internally (BufWriter / TLS / compression): poll_write fills `hold`,
+    /// only poll_flush (chunk script fscript) passes the bytes on
+    iobuf: bool,
+    hold: VecDeque<u8>,
+    fscript: Vec<usize>,
+    fpos: usize,
 }
 type PipeRef = Rc<RefCell<PipeSt>>;
 
@@ -110,18 +116,47 @@ impl AsyncWrite for End {
             return Poll::Pending;
         }
         let k = n.min(data.len());
-        p.buf.extend(&data[..k]);
         p.written.extend(&data[..k]);
+        if p.iobuf {
+            p.hold.extend(&data[..k]);
+            return Poll::Ready(Ok(k));
+        }
+        p.buf.extend(&data[..k]);
         if let Some(w) = p.rd_waker.take() {
             w.wake();
         }
         Poll::Ready(Ok(k))
     }
-    fn poll_flush(self: Pin<&mut Self>, _cx: &mut Context<'_>) -> Poll<io::Result<()>> {
-        Poll::Ready(Ok(()))
+    fn poll_flush(self: Pin<&mut Self>, cx: &mut Context<'_>) -> Poll<io::Result<()>> {
+        let mut p = self.tx.borrow_mut();
+        loop {
+            if p.hold.is_empty() {
+                return Poll::Ready(Ok(()));
+            }
+            let script = p.fscript.clone();
+            let mut pos = p.fpos;
+            let n = next_script(&script, &mut pos);
+            p.fpos = pos;
+            if n == 0 {
+                cx.waker().wake_by_ref();
+                return Poll::Pending;
+            }
+            let k = n.min(p.hold.len());
+            for _ in 0..k {
+                let b = p.hold.pop_front().unwrap();
+                p.buf.push_back(b);
+            }
+            if let Some(w) = p.rd_waker.take() {
+                w.wake();
+            }
+        }
     }
     fn poll_shutdown(self: Pin<&mut Self>, _cx: &mut Context<'_>) -> Poll<io::Result<()>> {
         let mut p = self.tx.borrow_mut();
+        // a buffering stream flushes what it holds before shutting down
+        while let Some(b) = p.hold.pop_front() {
+            p.buf.push_back(b);
+        }
         p.closed = true;
         if let Some(w) = p.rd_waker.take() {
             w.wake();
@@ -436,7 +471,13 @@ fn run_rt(clock: &Clock, cfg: &Value) {
     let drs = |m: &Response<String>| describe_resp(m);
     macro_rules! serde_rt {
         ($codec_w:expr, $codec_r:expr) => {{
-            let (a, b, _ab, _ba) = duplex(rs.clone(), ws.clone());
+            let (a, b, ab, _ba) = duplex(rs.clone(), ws.clone());
+            if cfg.get("iobuf").and_then(|v| v.as_bool()).unwrap_or(false) {
+                let mut p = ab.borrow_mut();
+                p.iobuf = true;
+                p.fscript = cfg.get("fscript").and_then(|v| v.as_array())
+                    .map(|a| a.iter().map(|x| x.as_u64().unwrap_or(1) as usize).collect()).unwrap_or_default();
+            }
             if dir == "c2s" {
                 let items: Vec<ClientMessage<String>> = msgs.iter().enumerate().map(|(i, c)| client_msg(clock, c, i as u64 + 1)).collect();
                 let w: tarpc::serde_transport::Transport<End, Response<String>, ClientMessage<String>, _> =
@@ -635,6 +676,49 @@ fn run_kinds(clock: &Clock, cfg: &Value) {
             Err(e) => format!("decode error: {}", e),
         };
         emit("Kind", json!({"name": format!("{:?}", kind), "portable": idx < PORTABLE.len(), "got": got}));
+    }
+    // kind numbers no tarpc peer of this version writes (a newer or foreign peer): they must decode as Other
+    for k in [18u32, 19, 20, 250, 251, 65535, 65536, u32::MAX] {
+        let m = Response::<String> { request_id: 1, message: Err(ServerError::new(io::ErrorKind::Other, "d".into())) };
+        let mut bytes = encode_resp(codec, &m);
+        if codec == "json" {
+            let text = String::from_utf8(bytes).unwrap().replace("\"kind\":16", &format!("\"kind\":{}", k));
+            bytes = text.into_bytes();
+        } else {
+            // bincode varint: [request_id = 1][variant Err = 1][kind = 16][detail...]
+            let mut v = bytes[..2].to_vec();
+            if k < 251 {
+                v.push(k as u8);
+            } else if k <= 65535 {
+                v.push(251);
+                v.extend_from_slice(&(k as u16).to_le_bytes());
+            } else {
+                v.push(252);
+                v.extend_from_slice(&k.to_le_bytes());
+            }
+            v.extend_from_slice(&bytes[3..]);
+            bytes = v;
+        }
+        let back = exec::catch(|| -> Result<Response<String>, String> {
+            match codec {
+                "json" => serde_json::from_slice(&bytes).map_err(|e| e.to_string()),
+                _ => {
+                    use bincode::Options;
+                    bincode::DefaultOptions::new().deserialize(&bytes).map_err(|e| e.to_string())
+                }
+            }
+        });
+        match back {
+            Ok(r) => {
+                let got = match r {
+                    Ok(Response { message: Err(e), .. }) => format!("{:?}", e.kind),
+                    Ok(_) => "ok?".to_string(),
+                    Err(e) => format!("decode error: {}", e),
+                };
+                emit("Kind", json!({"name": format!("Foreign{}", k), "portable": false, "got": got}));
+            }
+            Err(msg) => emit("Panic", json!({"who": "decoder", "msg": msg})),
+        }
     }
     let _ = clock;
 }
@@ -900,8 +984,11 @@ pub fn run(a: &Args) -> Value {
                 let codec2 = ["json", "bincode", "mem-unbounded", "mem-bounded"][rng.gen_range(0..4)];
                 let transit = [0u64, 0, 1, 7, 5000][rng.gen_range(0..5)];
                 let close = ["drop", "close", "keep"][rng.gen_range(0..3)];
-                json!({"kind": "rt", "codec": codec2, "dir": dir, "msgs": msgs, "rscript": sl(&mut rng), "wscript": sl(&mut rng),
-                       "transit": transit, "close": close, "cap": rng.gen_range(1..3u64)})
+                let (rs, ws) = (sl(&mut rng), sl(&mut rng));
+                let iobuf = rng.gen_range(0..3) == 0;
+                let fs = sl(&mut rng);
+                json!({"kind": "rt", "codec": codec2, "dir": dir, "msgs": msgs, "rscript": rs, "wscript": ws,
+                       "transit": transit, "close": close, "cap": rng.gen_range(1..3u64), "iobuf": iobuf, "fscript": fs})
             }
             "garbage" => {
                 let dir = ["c2s", "s2c"][rng.gen_range(0..2)];
